@@ -115,7 +115,9 @@ func c10GenFile(r *rand.Rand, k int) c10File {
 		return c10File{Class: "wellformed-anchors", Content: []byte(txt), Expected: e}
 	case 3: // wrong shapes: cannot be decoded as a list of entries
 		txt := []string{"command: x\ndescription: y\n", "just a scalar", "- a\n- b\n", "- [1, 2]\n- [3]\n", "- command: [1,2]\n", "- command: {a: b}\n",
-			"- keywords: notalist\n  command: x\n", "42", "- pipeline: maybe\n  command: x\n", "? [a]\n: b\n"}[r.Intn(10)]
+			"- keywords: notalist\n  command: x\n", "42", "- pipeline: maybe\n  command: x\n", "? [a]\n: b\n",
+			// undecodable content whose text resembles operating-system error messages (the decoder quotes scalars in its errors)
+			"- keywords: \"no such file or directory\"\n  command: x\n", "- command: x\n  pipeline: \"permission denied\"\n", "no such file or directory", "- command: x\n  tags: permission denied\n"}[r.Intn(14)]
 		return c10File{Class: "wrong-shape", Content: []byte(txt), MustFail: true}
 	case 4: // syntactically damaged
 		txt := []string{"- command: \"unterminated\n", "- command: x\n   description: bad indent\n  keywords: [a\n", "\t- tab\n", "- {command: x", "%YAML 9.9\n---\n- a: b\n  - c\n",
